@@ -447,7 +447,7 @@ pub fn run_scenario2(world: &World, sc: &Scenario, tag: &str, res: &mut CaseResu
 				double_left = double_left.saturating_sub(1);
 				res.probe("recovery_with_work_found");
 				// long recoveries (a walk back over many blocks) are sampled evenly
-				let cap = if double_budget > 100 { 160 } else { 24 };
+				let cap = if double_budget > 3 { 60 } else { 24 };
 				let stride2 = (init_labels.len() + cap - 1) / cap;
 				for (j, l2) in init_labels.iter().enumerate() {
 					let m = j + 1;
@@ -690,7 +690,7 @@ pub fn case(tier: &str, seed: u64, case: u64) -> CaseResult {
 	res.extra.insert("scenarios".into(), json!(cw.scenarios.len()));
 	let stride = if tier == "thorough" { 1 } else { 1 };
 	for (i, sc) in cw.scenarios.clone().iter().enumerate() {
-		let double_budget = if tier == "thorough" { 1000 } else { 3 };
+		let double_budget = if tier == "thorough" { 12 } else { 3 };
 		match run_scenario2(&cw.world, sc, &format!("C09-c{}s{}", case, i), &mut res, None, stride, double_budget, None) {
 			Ok(vs) => {
 				for mut v in vs {
